@@ -209,7 +209,7 @@ def injection_interpolation(A, splitting):
         raise TypeError('Invalid sparse matrix type, not sparse.')
     if A.format == 'bsr':
         blocksize = A.blocksize[0]
-        n = A.shape[0] / blocksize
+        n = int(A.shape[0] / blocksize)
     elif A.format == 'csr':
         n = A.shape[0]
         blocksize = 1
